@@ -314,6 +314,7 @@ func JSONCases(r *lib.RNG, n int) ([]lib.Case, map[string]any, error) {
 	for i := 0; i < n; i++ {
 		c := GenCase(r, GenOpts{}, 100000+i)
 		c.Path = "json"
+		c.Abi = true
 		c.Validated = true
 		c.Decl.Agg = strings.ToLower(c.Decl.Agg) // the configuration accepts "", "and", "or" only
 		c.Kind = "json-" + c.Kind
